@@ -70,7 +70,7 @@ static void judge_solution(const case_t *c, sys_t *S, int trans, equed_t equed, 
     int notran_eff = S->nr ? (trans != 0) : (trans == 0);
     ref_t *Geq = csc_dense(&S->G);
 
-    ld maxomega = 0, maxferr_ratio = 0, worst_berr_diff = 0;
+    ld maxomega = 0, maxferr_ratio = 0, worst_berr_diff = 0; long n_tight = 0;
     ref_t *xr = xmalloc((n + 1) * sizeof(ref_t)), *y = xmalloc((n + 1) * sizeof(ref_t));
     ld *ay = xmalloc((n + 1) * sizeof(ld));
     ref_t *Ginv = xmalloc((size_t)n * n * sizeof(ref_t) + 16);
@@ -134,8 +134,57 @@ static void judge_solution(const case_t *c, sys_t *S, int trans, equed_t equed, 
             snprintf(key, sizeof key, "C13|berr-untruthful%s", tag);
             jo_fail(key, "rhs %ld: reported berr %.3Le but the returned X has componentwise backward error %.3Le (tolerance %.2Le)", (long)cidx, berr, omega, tol_b);
         }
-        /* C07 (and the tight berr claim of C13): backward error of order (n+1)u under the premise */
-        if (premised && omega > 4.0L * (n + 1) * UBOUND) {
+        /* Fixed-precision refinement reaches a componentwise backward error of order u only if, in the system it runs
+           on (the equilibrated one), cond(A^-1) * sigma(A,x) * u is small, sigma = max_i(|A||x|+|b|)_i / min_i(...)_i
+           (Skeel 1980; Higham, ASNA Thm 12.4).  Rows of hugely different |A||x|+|b| make that impossible in single
+           precision for perfectly conditioned matrices; the tight claim is asserted only when this second premise
+           holds too, and the unrefined LU bound of C01 is asserted in every case. */
+        int skeel_ok = 0; ld sigma = 0;
+        {
+            int colequ_ = (equed == COL || equed == BOTH), rowequ_ = (equed == ROW || equed == BOTH);
+            const elem_t *bs = S->b + (size_t)cidx * S->ldb;
+            elem_t *xe = xmalloc((n + 1) * sizeof(elem_t));
+            ref_t *xq = xmalloc((n + 1) * sizeof(ref_t)), *yq = xmalloc((n + 1) * sizeof(ref_t));
+            ld *aq = xmalloc((n + 1) * sizeof(ld));
+            for (int_t i = 0; i < n; ++i) {
+                ld wgt = 1.0L;
+                if (notran_eff && colequ_) wgt = 1.0L / (ld)S->C[i];
+                else if (!notran_eff && rowequ_) wgt = 1.0L / (ld)S->R[i];
+                xq[i] = xr[i] * wgt; xe[i] = R2E(xq[i]);
+            }
+            op_apply(Geq, n, op, xq, yq, aq);
+            ld dmax = 0, dmin = 1e4900L;
+            for (int_t i = 0; i < n; ++i) { ld dd = aq[i] + rabs1(E2R(bs[i])); if (dd > dmax) dmax = dd; if (dd < dmin) dmin = dd; }
+            sigma = dmin > 0 ? dmax / dmin : 1e4900L;
+            if (!sing) {
+                /* cond(A^-1) = || |op(A)| |op(A)^-1| ||_inf for the equilibrated matrix */
+                ld ccw = 0;
+                for (int_t i = 0; i < n; ++i) {
+                    ld rs_ = 0;
+                    for (int_t j = 0; j < n; ++j) {
+                        ld t = 0;
+                        for (int_t k = 0; k < n; ++k) {
+                            /* op(G)(i,k) * op(G)^-1(k,j): op(G)^-1 = op(Ginv) */
+                            ld a = (op == 0 || op == 3) ? rabs(Geq[(size_t)k * n + i]) : rabs(Geq[(size_t)i * n + k]);
+                            ld b2 = (op == 0 || op == 3) ? rabs(Ginv[(size_t)j * n + k]) : rabs(Ginv[(size_t)k * n + j]);
+                            t += a * b2;
+                        }
+                        rs_ += t;
+                    }
+                    if (rs_ > ccw) ccw = rs_;
+                }
+                skeel_ok = (ccw * sigma * (ld)(n + 1) * uw <= 0.1L);
+                if (first && cidx == 0) { jo_dbl("sigma", (double)(sigma > 1e300L ? 1e300L : sigma)); jo_dbl("cond_cw", (double)ccw); }
+            }
+            if (have_lu && W && !sing) {
+                snprintf(key, sizeof key, "C07|unrefined-bound%s", tag);
+                check_residual(Geq, n, op, xe, n, bs, n, 1, W, perm_r, perm_c, 8.0L * gam(3.0L * n), key);
+            }
+            free(xe); free(xq); free(yq); free(aq);
+        }
+        if (premised && skeel_ok) ++n_tight;
+        /* C07 (and the tight berr claim of C13): backward error of order (n+1)u under the premises */
+        if (premised && skeel_ok && omega > 4.0L * (n + 1) * UBOUND) {
             snprintf(key, sizeof key, "C07|backward-error%s", tag);
             jo_fail(key, "rhs %ld: componentwise backward error %.3Le of the returned X exceeds 4(n+1)u = %.3Le (kappa %.2Le growth %.2Le)", (long)cidx, omega, 4.0L * (n + 1) * UBOUND, kappa, growth);
         }
@@ -181,6 +230,7 @@ static void judge_solution(const case_t *c, sys_t *S, int trans, equed_t equed, 
             free(xt); free(rr); free(Mop);
         }
     }
+    if (first) jo_int("tight_judged", n_tight);
     if (first) { jo_dbl("omega", (double)maxomega); jo_dbl("berr_diff", (double)worst_berr_diff); jo_dbl("ferr_ratio", (double)maxferr_ratio); }
 
     /* ---- C12: rcond, info = n+1, pivot growth (first call: the factorization belongs to it) ---- */
@@ -405,7 +455,17 @@ int cmd_gssvx(const case_t *c)
         }
     } else if (info > 0 && info <= n) {
         /* ---- C06: singular ---- */
-        if (!expect_sing) jo_fail("C07|info-nonzero", "expert driver returned info = %ld for a nonsingular matrix", (long)info);
+        if (!expect_sing) {
+            /* an exact zero pivot can be produced by rounding when the (equilibrated) matrix is singular to working
+               precision: the claim "info in {0, n+1}" is asserted only for kappa_1 * n * u <= 0.01 */
+            ref_t *Gq = csc_dense(&S.G), *Gi = xmalloc((size_t)n * n * sizeof(ref_t) + 16);
+            int sg = ref_inverse(Gq, n, Gi);
+            ld kap = sg ? 1e4900L : norm1_dense(Gq, n) * norm1_dense(Gi, n);
+            free(Gq); free(Gi);
+            if (kap * (ld)n * UROUND <= 0.01L)
+                jo_fail("C07|info-nonzero", "expert driver returned info = %ld for a nonsingular matrix (kappa_1 = %.3Le)", (long)info, kap);
+            else jo_int("info_undecided_illcond", 1);
+        }
         for (size_t i = 0; i < (size_t)S.ldx * nrhs; ++i) if (!is_sentinel(S.x[i])) { jo_fail("C06|X-written", "info = %ld but X was written", (long)info); break; }
         long want = struct_rank_prefix(&S.G0, perm_c);
         jo_int("first_deficient", want);
